@@ -280,12 +280,15 @@ C16for(E, tags, q, d, u) ==
      /\ (HasTag(tags, "timeout") \/ HasTag(tags, "timeout-slow")) =>
           \A i \in 1..Len(cbs) : (cbs[i].k = "e" /\ cbs[i].v = -2) => \A j \in 1..Len(emits) : (emits[j].k = "n" /\ emits[j].clk <= cbs[i].clk) => emits[j].clk + d <= cbs[i].clk
      /\ HasTag(tags, "subset") =>        \* sample / debounce: only items the source emitted, in source order, none twice
+          \* ("the source" of subscriber u is what the hot source was handed after u's subscribe call began: an item of an earlier
+          \*  subscription of the same observable value is not an item its source emitted)
           LET dv == Delivered(E, u)
-              sv == Emitted(E, 1)
+              sv == IF SubCall(E, u) # 0 THEN CallsAfter(E, 1, SubCall(E, u)) ELSE Emitted(E, 1)
               RECURSIVE IsSubseq(_,_)
               IsSubseq(a, b) == IF a = <<>> THEN TRUE ELSE IF b = <<>> THEN FALSE ELSE IF Head(a) = Head(b) THEN IsSubseq(Tail(a), Tail(b)) ELSE IsSubseq(a, Tail(b))
           IN IsSubseq(dv, sv) /\ NoDup(dv)
-C16ok(E, tags, q, d) == C16for(E, tags, q, d, 1)
+\* "resub": subscriber 1 leaves, then subscriber 2 subscribes the same observable value - judged for its own subscription
+C16ok(E, tags, q, d) == C16for(E, tags, q, d, 1) /\ ((HasTag(tags, "resub") /\ SubRet(E, 2) # 0) => C16for(E, tags, q, d, 2))
 \* C14 for the time-driven sources / operators: two subscribers of the SAME observable value each get what the timed definition
 \* gives for their own subscription (own worker, own timer, own clock origin)
 C14ok(E, tags, q, d) == HasTag(tags, "twice") => \A u \in {1, 2} : (SubRet(E, u) # 0 => C16for(E, tags, q, d, u))
